@@ -79,6 +79,20 @@ func (c *WCase) dictCap() int {
 	return c.L2.EffDictCap()
 }
 
+// dictCapField returns pointers to the DictCap, BufSize and LC fields of the
+// configuration the case uses.
+func (c *WCase) dictCapField() [3]*int {
+	switch {
+	case c.XZ != nil:
+		return [3]*int{&c.XZ.DictCap, &c.XZ.BufSize, &c.XZ.LC}
+	case c.LZ != nil:
+		return [3]*int{&c.LZ.DictCap, &c.LZ.BufSize, &c.LZ.LC}
+	case c.L2 != nil:
+		return [3]*int{&c.L2.DictCap, &c.L2.BufSize, &c.L2.LC}
+	}
+	return [3]*int{}
+}
+
 // runWriter executes the history of c against the real library writer behind
 // a simulated sink and records everything observable.
 func runWriter(c *WCase, x *sim.Ctx) *WResult {
